@@ -147,6 +147,40 @@ def gen_cases(rng, tier):
     # the copy is rebuilt after the library's cache of generated record classes (lru_cache, 4096 entries) has turned
     # over: same descriptor, same values, but a freshly generated class
     cases.append(dict(_cmp(cmd, cmd, [], "copy"), evict=4200))
+    # list fields that received elements IN PLACE (plain values appended after the record was built) against a record
+    # that held every element from the start: same descriptor, equal field values -> equal, same hash
+    RAW = {"path[]": [V.S("/tmp/x"), V.S("rel/y")], "net.ipaddress[]": [["ip", "10.0.0.1"], ["ip", "2001:db8::1"]],
+           "digest[]": [["digest", ["d41d8cd98f00b204e9800998ecf8427e", None, None]]], "command[]": [V.S("ls -la /tmp")],
+           "uint16[]": [V.I(7)], "string[]": [V.S("x")], "net.ipnetwork[]": [["ipnet", "10.0.0.0/8"]],
+           "datetime[]": [G]}
+    for lt, raw in sorted(RAW.items()):
+        for first, extra in (([], raw[:1]), (raw[:1], raw), (raw, raw[-1:])):
+            ra = ["rec", ["t/app", [[lt, "items"], ["string", "s"]]], [["list", first], V.S("k")], dict(M, _append={"items": extra})]
+            rb = V.merge_append(ra)
+            for ig in ([], ["s"]):
+                cases.append(_cmp(ra, rb, ig, "copy"))
+                cases.append(_cmp(rb, ra, ig, "copy"))
+    # addresses that embed another address: the IPv4-mapped IPv6 form of an IPv4 address is a different value
+    for pa, pb in (("::ffff:10.0.0.1", "10.0.0.1"), ("10.0.0.1", "::ffff:10.0.0.1"), ("::ffff:1.2.3.4", "1.2.3.4"),
+                   ("::ffff:255.255.255.255", "255.255.255.255"), ("64:ff9b::10.0.0.1", "10.0.0.1")):
+        for lt, mk in (("net.ipaddress", lambda x: ["ip", x]), ("net.ipaddress[]", lambda x: ["list", [["ip", "9.9.9.9"], ["ip", x]]])):
+            ds = ["t/ipm", [[lt, "ip"], ["string", "s"]]]
+            cases.append(_cmp(["rec", ds, [mk(pa), V.S("k")], M], ["rec", ds, [mk(pb), V.S("k")], M], [], "vary", 0))
+    # one instant under different UTC offsets (and the two wall clocks of a repeated hour): the values are equal as
+    # Python datetimes, so the records are equal - and equal records must hash alike
+    c7 = [2021, 3, 4, 12, 30, 15, 123456]
+    same = [["dt", c7, "utc", 0], ["dt", [2021, 3, 4, 14, 30, 15, 123456], ["fixed", 7200, 0], 0],
+            ["dt", [2021, 3, 4, 7, 30, 15, 123456], ["fixed", -18000, 0], 0],
+            ["dt", [2021, 3, 4, 13, 0, 15, 123456], ["fixed", 1800, 0], 0]]
+    for x in same:
+        for y in same:
+            if x is y:
+                continue
+            ds = ["t/inst", [["datetime", "ts"], ["datetime[]", "tl"], ["string", "s"]]]
+            cases.append(_cmp(["rec", ds, [x, ["list", [x, y]], V.S("k")], M], ["rec", ds, [y, ["list", [y, x]], V.S("k")], M],
+                              [], "same-instant"))
+            cases.append(_cmp(["rec", ds, [V.NONE, ["list", []], V.S("k")], {"_generated": x}],
+                              ["rec", ds, [V.NONE, ["list", []], V.S("k")], {"_generated": y}], [], "same-instant"))
     nanr = ["rec", ["t/f", [["float", "f"]]], [["float", "7ff8000000000000"]], M]
     cases.append(_cmp(nanr, nanr, [], "copy"))
     # --- random pairs
@@ -519,6 +553,8 @@ def oracle(case, obs):
     if rel in ("copy", "grouped-copy"):
         if not obs["eq_ab"] and not _has_nan(obs["obs_a"]):
             return "an independently rebuilt copy is not equal"
+    if rel == "same-instant" and not obs["eq_ab"]:
+        return "records whose timestamps denote the same instants (equal datetime values) are not equal"
     if "members_eq" in obs and not _has_nan(obs["obs_a"]) and not _has_nan(obs["obs_b"]):
         same = (obs["group_names_equal"] and obs["group_sizes"][0] == obs["group_sizes"][1]
                 and all(m is True for m in obs["members_eq"]))
